@@ -95,6 +95,9 @@ class Gen:
         # OBJECT shared by several ConditionalSum terms, BelongsTo sets with non-integer / large / boolean members
         self.wide = wide
 
+    # tiny positive literals: exact positive arguments of log / logzero (boundary of the regular domain)
+    TINY = [1e-9, 1e-12, 3e-8, 1.4e-8, 1e-7, 1e-300]  # (a subnormal literal makes the engine's std::stod raise: not generated)
+
     def truth(self, d, data_only=False):
         """operand of and/or: any real is a truth value (non-zero = true)"""
         if self.wide and self.r.random() < 0.4:
@@ -160,8 +163,12 @@ class Gen:
             node = ['exp', self.small(D, data_only)]
         elif op == 'log':
             node = ['log', self.pos(D, data_only)]
+            if self.wide and r.random() < 0.15:
+                node = ['log', ['num', r.choice(self.TINY)]]
         elif op == 'logzero':
             node = ['logzero', self.pos(D, data_only) if r.random() < 0.7 else ['num', 0.0]]
+            if self.wide and r.random() < 0.3:
+                node = ['logzero', ['num', r.choice(self.TINY)]]
         elif op == 'powc':
             c = r.choice([2, 3, -1, -2, 0.5, 1.5, 2.5, -0.5, 0, 1, 4])
             base = self.pos(D, data_only) if (c != int(c) or c < 0) else R()
